@@ -17,6 +17,92 @@ C01_INV = ["TypeOK", "InstancesWellFormed", "ConservationDefectEqualsPoissonResi
            "TotalInjectionIsTotalResidual", "BoundaryShares", "TerminalInflowIsRequestedCurrent", "BalancedAccepted"]
 
 
+def R(x0, x1, y0, y1):
+    return ro.rect_vertices(x0, x1, y0, y1)
+
+
+# terminal polygons of the 'terminal-edit' histories: vertex lists written down HERE (length units; film = box 5 x 3 about the origin);
+# they cover only PART of a film edge so that they can be moved along it, and their numbers avoid the boundary points of the mesh
+T0 = {"source": R(-2.6, -2.4, -1.37, 0.43), "drain": R(2.4, 2.6, -1.41, -0.13), "top": R(-1.13, 0.37, 1.4, 1.6), "bottom": R(-0.71, 1.03, -1.6, -1.4)}
+T1 = {"source": R(-2.6, -2.4, -0.23, 1.33), "drain": R(2.4, 2.6, -0.2, 1.31), "top": R(0.53, 1.91, 1.4, 1.6), "bottom": R(-1.83, -0.47, -1.6, -1.4)}
+KIND = {"bar": ["source", "drain"], "tee": ["source", "drain", "top"], "cross": ["source", "drain", "top", "bottom"]}
+CUR = {"bar": {"source": 3.0, "drain": -3.0}, "tee": {"source": 4.0, "drain": -2.0, "top": -2.0},
+       "cross": {"source": 4.0, "drain": -2.0, "top": -1.0, "bottom": -1.0}}
+
+
+def edit_op(how, kind):
+    """one edit of the terminals of a meshed device of `kind` (the numbers keep every terminal on its film edge)"""
+    if how == "translate":
+        return [dict(op="edit", how="translate", terminal="drain", dy=1.47)]
+    if how == "scale":
+        return [dict(op="edit", how="scale", terminal="source", yfact=0.5, origin=(-2.5, 0.43))]
+    if how == "rotate":
+        return [dict(op="edit", how="rotate", terminal="source", degrees=180.0, origin=(-2.5, -0.2))]
+    if how == "points":
+        return [dict(op="edit", how="points", terminal="drain", vertices=R(2.4, 2.6, 0.11, 1.03))]
+    if how == "replace":
+        return [dict(op="edit", how="replace", terminals={n: T1[n] for n in reversed(KIND[kind])})]
+    if how == "swap-names":
+        return [dict(op="edit", how="swap-names", terminals=["source", "drain"])]
+    if how == "translate+scale":      # two edits in a row
+        return edit_op("translate", kind) + edit_op("scale", kind)
+    raise ValueError(how)
+
+
+def prior_ops(prior, kind):
+    """what happened on the meshed device BEFORE its terminals are edited"""
+    zero = {n: 0.0 for n in KIND[kind]}
+    return {"solve": [dict(op="solve")], "unbiased-solve": [dict(op="solve", currents=zero, current_ramp=None)],
+            "terminal_info": [dict(op="query", what="terminal_info")], "solver-constructed": [dict(op="query", what="solver")],
+            "solve+copy": [dict(op="solve"), dict(op="query", what="copy")], "nothing": []}[prior]
+
+
+def edit_history(kind, prior, how, **kw):
+    a = dict(label=f"terminal-edit/{kind}{'+hole' if kw.get('hole') else ''}/{prior}/{how}/solve", func="terminal_edit_run", kind=kind,
+             terminals={n: T0[n] for n in KIND[kind]}, currents=dict(CUR[kind]), mel=0.4, dt=2.0 ** -8, solve_time=0.05, k=3, adaptive=False,
+             script=prior_ops(prior, kind) + edit_op(how, kind) + [dict(op="solve")])
+    a.update(kw)
+    return a
+
+
+def edit_histories(ctx):
+    """histories on ONE meshed Device: (solve | terminal_info() | construct a solver | copy), edit the terminals in place WITHOUT re-meshing,
+    solve again"""
+    runs = [
+        edit_history("bar", "solve", "translate", field=0.3),
+        edit_history("tee", "solve", "points", hole=True, adaptive=True, current_ramp=0.03, solve_time=0.08),
+        edit_history("tee", "terminal_info", "replace"),
+        edit_history("cross", "unbiased-solve", "translate+scale", field=0.2),
+        edit_history("bar", "solve+copy", "rotate"),
+    ]
+    if not ctx.quick:
+        n = 0
+        for how in ("translate", "scale", "rotate", "points", "replace", "swap-names", "translate+scale"):
+            for prior in ("solve", "unbiased-solve", "terminal_info", "solver-constructed", "solve+copy", "nothing"):
+                kind = ("bar", "tee", "cross")[(n + n // 6) % 3]
+                n += 1
+                runs.append(edit_history(kind, prior, how, hole=(n % 4 == 0), adaptive=(n % 2 == 0), field=(0.3 if n % 3 == 0 else 0.0),
+                                         **(dict(current_ramp=0.03, solve_time=0.08) if n % 5 == 0 else {})))
+        # a terminal is added / dropped by replacing device.terminals (the second solve names the terminals then in force)
+        runs.append(dict(edit_history("bar", "solve", "replace"), label="terminal-edit/bar/solve/replace(+top)/solve",
+                         script=[dict(op="solve"), dict(op="edit", how="replace", terminals={"top": T0["top"], "drain": T0["drain"], "source": T0["source"]}),
+                                 dict(op="solve", currents={"source": 3.0, "drain": -1.0, "top": -2.0})]))
+        runs.append(dict(edit_history("tee", "solve", "replace"), label="terminal-edit/tee/solve/replace(-top)/solve",
+                         script=[dict(op="solve"), dict(op="edit", how="replace", terminals={"source": T1["source"], "drain": T0["drain"]}),
+                                 dict(op="solve", currents={"source": 3.0, "drain": -3.0})]))
+        # there and back again: three solves
+        runs.append(dict(edit_history("tee", "solve", "translate"), label="terminal-edit/tee/solve/translate/solve/translate-back/solve",
+                         script=[dict(op="solve"), dict(op="edit", how="translate", terminal="drain", dy=1.47), dict(op="solve"),
+                                 dict(op="edit", how="translate", terminal="drain", dy=-1.47), dict(op="solve")]))
+    seen = set()
+    out = []
+    for r in runs:
+        if r["label"] not in seen:
+            seen.add(r["label"])
+            out.append(r)
+    return out
+
+
 def matrix(ctx):
     um = dict(length_units="um", scale=1.0, field_units="mT", current_units="uA", fs=1.0, cs=1.0)
     nm = dict(length_units="nm", scale=1000.0, field_units="uT", current_units="nA", fs=1000.0, cs=1000.0)
@@ -77,6 +163,7 @@ def matrix(ctx):
         dict(label="history/tee/rotate-90-then-mesh", func="history_run", history="rotate", dev="tee", mel=0.8, mel2=0.6,
              currents={"source": 4.0, "drain": -2.0, "top": -2.0}, adaptive=False, solve_time=0.15, k=3),
     ]
+    runs += edit_histories(ctx)
     if not ctx.quick:
         for holes in (1, 2):
             for outline in (4, 20, 101):
@@ -138,7 +225,10 @@ def run(ctx):
     ctx.cov["bounds"] = {"OneStep": "4 mesh instances x 3 weight variants; basis perturbations of mu, Js, dA/dt, boundary flux by {-2, 1, 3} over a "
                                     "non-trivial integer background; every balanced current assignment in -3..3 (x 1, x 1/10) to 2-4 terminals",
                          "runs": "bar, barhole, tee, cross x field none/static/ramped x currents constant/ramped/decimal x screening x adaptive x um-mT-uA / nm-uT-nA",
-                         "tolerance": ro.TOL * ro.FINE}
+                         "tolerance": ro.TOL * ro.FINE,
+                         "histories": "one Device object: re-mesh / move / rotate / reflect between two solves; two solve() on one TDGLSolver; terminals of "
+                                      "the MESHED device edited without re-meshing (Polygon.translate/scale/rotate(inplace=True), points setter, "
+                                      "device.terminals replaced, names swapped) after a solve / terminal_info() / solver construction / copy()"}
     # 1. design
     ctx.model_check("OneStep", ro.onestep_cfg(C01_INV), name="OneStep[C01]", required_actions=["PickFields", "PickCurrents"])
     for mech, inv in ((dict(MSumOthers=False), "TerminalInflowIsRequestedCurrent"), (dict(MJnWithDA=False), "ConservationDefectEqualsPoissonResidual"),
@@ -172,6 +262,12 @@ def run(ctx):
     ctx.cov["holed_coarse_outline_runs"] = {"built": len(holed), "skipped_mesh_refused": skipped}
     if len(holed) < 2:
         raise core.MachineryFailure(f"C01: fewer than 2 holed coarse-outline devices could be meshed (skipped {skipped})")
+    edited = [(a, t) for a, t in zip(runs, run_traces) if a.get("func") == "terminal_edit_run" and not t.get("raised")]
+    ctx.cov["terminal_edit_histories"] = {
+        "runs": len(edited), "edits": sum(len(t["edits"]) for _, t in edited),
+        "edit_kinds": sorted({e["how"] for _, t in edited for e in t["edits"]}),
+        "min_boundary_edges_changed_by_an_edit": min((e["boundary_edges_changed"] for _, t in edited for e in t["edits"]), default=None),
+        "frames_checked_after_an_edit": sum(v for _, t in edited for k, v in t["frames_per_epoch"].items() if k != "0")}
     keep = [n for n, t in enumerate(run_traces) if not t.get("skipped")]
     runs, run_traces = [runs[n] for n in keep], [run_traces[n] for n in keep]
     for t in ctor_traces:
@@ -214,6 +310,8 @@ def run(ctx):
                       f"{t['worst_term']:.3e} (relative; tolerance {ro.TOL * ro.FINE:.0e}); frames checked {t['nframes']}",
                       {"module": "RunObs", "args": a, "worst_cell": t["worst_cell"], "worst_term": t["worst_term"], "clauses": cl,
                        "terms": [e.get("terms") for e in t["ev"] if e["kind"] == "cons"][:4]})
+    if not ctx.violations and (len(edited) < 4 or ctx.cov["terminal_edit_histories"]["frames_checked_after_an_edit"] < 4):
+        raise core.MachineryFailure(f"C01: the terminal-edit histories did not reach their configuration: {ctx.cov['terminal_edit_histories']}")
     driven = [n for n in sorted(acc2) if run_traces[n]["nframes"] >= 1 and norm2[n]["cfg"]["driven"]]
     if not driven and not ctx.violations:
         raise core.MachineryFailure("C01: no driven run was accepted and no violation was found")
@@ -232,6 +330,19 @@ def run(ctx):
         if accb:
             raise core.MachineryFailure(f"C01: corrupted traces {sorted(accb)} accepted")
         ctx.cov["canaries_rejected"] += len(bad)
+    # the vacuity guard of the terminal-edit histories is itself tested: an edit that moves no boundary edge, and a frame judged against
+    # terminals that are no longer in force, must violate EditsReached
+    ed = [n for n in sorted(acc2) if runs[n].get("func") == "terminal_edit_run" and any(e["kind"] == "edit" for e in norm2[n]["ev"])]
+    if ed:
+        bad = []
+        b = copy.deepcopy(norm2[ed[0]]); next(e for e in b["ev"] if e["kind"] == "edit")["changed"] = 0; bad.append(b)
+        if not ctx.quick:
+            b = copy.deepcopy(norm2[ed[0]]); b["ev"][-1]["epoch"] = 0; bad.append(b)
+        for b in bad:
+            _, rb = ro.tlc_traces(ctx, [b], ro.cfg(True), "canary[C01 edit histories]", count=False)
+            if "EditsReached" not in rb.violated:
+                raise core.MachineryFailure("C01: a vacuous terminal-edit history was not refused by EditsReached")
+        ctx.cov["canaries_rejected"] += len(bad)
     ctx.cov["rule"] = ("cases: (a) one call of the real TDGLSolver constructor per balanced assignment emitted by TLC; (b) one natural run of the real solver; "
                        "every recorded frame with step >= 1 is checked cell by cell (net outflow of supercurrent + normal current through the Voronoi faces "
                        "vs the current injected through the cell's share of a terminal) and terminal by terminal (inflow x K0 xi / 4 vs requested current "
@@ -241,6 +352,9 @@ def run(ctx):
     ctx.assume("geometry of the oracle: edge lengths, Voronoi face lengths, boundary edges, terminal edges/lengths are rebuilt from the raw site coordinates "
                "and triangles (numpy) and the terminal polygons; edge_mesh.edges is used only as the index map of the per-edge datasets; lambda, d, xi, units "
                "are the values the harness asked for; K0 xi / 4 from Device at the fine level, from Phi0 d / (2 pi mu0 lambda^2) at the coarse level (5e-6)")
+    ctx.assume("terminal-edit histories: the terminals in force at a solve are the vertex lists the check wrote down, transformed by the check's own "
+               "arithmetic; a boundary edge belongs to a terminal iff its raw midpoint lies inside that polygon (crossing-number test of the harness; "
+               "points within 1e-7 of a polygon border are refused as undecidable), a boundary site iff the site does")
     pk = [t["package_vs_raw"] for t in run_traces if t.get("package_vs_raw")]
     ctx.cov["package_arrays_vs_first_principles"] = {"max_rel_dual_edge_length_difference": max((p["dual"] for p in pk), default=None),
                                                      "max_rel_edge_length_difference": max((p["edge"] for p in pk), default=None)}
